@@ -146,6 +146,15 @@ def run(chk):
     chk.ob(R4, "x86|movsx-pairs", pairs == want, loc="asmjit/x86/x86emithelper.cpp:%d" % eam.line,
            detail="pairs selecting sign extension: unexpected %s, missing %s" % (sorted(pairs - want), sorted(want - pairs)), key="signext|x86")
 
+    from lib import vecbysize, subscript as _sub, cfg as _cfg
+    vecbysize.run(chk)
+    fns_o = []
+    for unit_, pat_ in (("asmjit/x86/x86func.cpp", r"asmjit::x86::FuncInternal::[a-z_0-9]+$"), ("asmjit/arm/a64func.cpp", r"asmjit::a64::FuncInternal::[a-z_0-9]+$")):
+        fns_o += [g for g in _cfg.load_functions(chk.facts(unit_, funcs=pat_)) if g.file.endswith(unit_.split("/")[-1])]
+    _sub.run(chk, fns_o, {}, {}, {}, rule="R-ORDER-SUBSCRIPT-BOUND", floor=6, only_fields=("id",),
+             text="every subscript of a calling convention's register order (`_passed_order[group].id[i]`, 16 entries) has an index that is "
+                  "bounded below 16 on the path (`i < kMaxRegArgsPerGroup`, a position counter that is tested before it advances): arguments "
+                  "beyond the register-passed ones never read a neighbouring group's order as register ids")
     return chk.finish(
         level="other",
         explanation=("Convention-table clause only: the records built by x86/a64 init_call_conv (extracted from the AST per architecture "
